@@ -168,12 +168,16 @@ def run_real(case):
         # ---- binary writers, all open at the same time
         bufs = [io.BytesIO() for _ in range(nw)]
         ws = [RecordStreamWriter(b) for b in bufs]
+        attempts = [[] for _ in range(nw)]      # per writer: (object as the model sees it, None | descriptors met before the failure)
         for w, rec in recs:
             try:
                 ws[w].write(rec)
                 created[w].append(rec)
+                attempts[w].append((rec, None))
             except (UnicodeEncodeError, ValueError, OverflowError):
                 out["failed"] += 1          # an unserialisable record: the caller catches the error and carries on
+                # a flat record fails after its own descriptor was met; the model only needs the descriptor
+                attempts[w].append((rec._desc(), 1))
         for i in range(nw):
             ws[i].flush()
             data = bufs[i].getvalue()
@@ -190,7 +194,8 @@ def run_real(case):
             out["bin"].append({"stream": data.hex(), "error": err, "kinds": kinds,
                                "want_sig": [_desc_sig(r) for r in created[i]], "got_sig": [_desc_sig(r) for r in got],
                                "want_obs": [V.observe(r) for r in created[i]], "got_obs": [V.observe(r) for r in got],
-                               "pvs": [W.to_pv(r) for r in created[i]], "hashes": hashes})
+                               "pvs": [W.to_pv(r) for r in created[i]], "hashes": hashes,
+                               "hist_pvs": [W.to_pv(r) for r, _ in attempts[i]], "hist_fails": [f for _, f in attempts[i]]})
         # ---- JSON writers (nested records / grouped are not JSON-serialisable: only flat records go there)
         flat = [(w, rec) for w, rec in recs if type(rec).__name__ != "GroupedRecord"
                 and not any(t.startswith("record") for t, _ in rec._desc.get_field_tuples())]
@@ -278,14 +283,14 @@ def oracle(case, obs):
 
 
 def model_op(case, obs):
-    if case.get("faulty"):
-        return None      # histories with a failing write: real-code oracle only (the model writer has no failing writes)
-    return [{"op": "wire_write", "objs": w["pvs"]} for w in obs["bin"]]
+    # histories with a failing write go to the model's `writeHist` (C03_own_descriptor_failed_writes): the failed
+    # attempt leaves its descriptor frames behind, exactly like the implementation's registration callback
+    return [{"op": "wire_write", "objs": w["hist_pvs"], "fails": w["hist_fails"]} for w in obs["bin"]]
 
 
 def compare(case, obs, mo):
     for i, (m, w) in enumerate(zip(mo, obs["bin"])):
-        if not w["pvs"]:
+        if not w["hist_pvs"]:
             continue
         if m.get("stream") != w["stream"]:
             a = bytes.fromhex(m.get("stream", ""))
